@@ -122,15 +122,33 @@ class Run:
         return r
 
     # ---------------------------------------------------------------- trace validation
-    def validate(self, module, trace_path, reset_events=("Doc", "Reset"), batches=None, timeout=1500, keep_reset=True):
+    def validate(self, module, trace_path, reset_events=("Doc", "Reset"), batches=None, timeout=1500, keep_reset=True, sticky=None):
         """Split an event log at reset events into batches, validate each batch with TLC (-workers 1)
         in parallel, collect mismatch records.  Every batch must report DONE with its length."""
         with open(trace_path) as f:
             lines = [ln for ln in f.read().split("\n") if ln]
         if not lines:
             raise Broken("empty trace " + trace_path)
+        if sticky:
+            # every event is self-contained given the latest `sticky` event (e.g. the descriptor): split anywhere
+            # and repeat that event at the head of each batch
+            nb = batches or min(NCPU, max(1, len(lines) // 400))
+            per = (len(lines) + nb - 1) // nb
+            groups_st, cur_st, last = [], [], None
+            for ln in lines:
+                is_st = ('"ev":"%s"' % sticky) in ln
+                if len(cur_st) >= per:
+                    groups_st.append(cur_st)
+                    cur_st = [last] if (last is not None and not is_st) else []
+                if is_st:
+                    last = ln
+                cur_st.append(ln)
+            if cur_st:
+                groups_st.append(cur_st)
+            lines_for_count = lines
+            lines = None
         groups, cur = [], []
-        for ln in lines:
+        for ln in (lines or []):
             ev = json.loads(ln).get("ev") if len(ln) < 200 else None
             if ev is None:
                 m = re.search(r'"ev":"([A-Za-z]+)"', ln)
@@ -139,7 +157,12 @@ class Run:
                 groups.append(cur)
                 cur = []
             cur.append(ln)
-        groups.append(cur)
+        if sticky:
+            groups = groups_st
+            lines = lines_for_count
+            batches = len(groups)
+        else:
+            groups.append(cur)
         nb = batches or min(NCPU, max(1, len(lines) // 400))
         # balance by byte size
         groups_sorted = groups
